@@ -7,6 +7,17 @@
 //!   before it: refused / dry-run statements must change nothing (the Space sequence counter may
 //!   skip), committed statements must be explained exactly by their receipt (one journal row, one
 //!   version bump and one version-log row per named element, nothing else touched).
+//! * `hist`: statements that hold a PURGE (the one clause that destroys recorded versions) and do
+//!   not commit, for every way of not committing (the refusals of the commit-time write-set
+//!   validation, planning refusals on either side of the PURGE, a refused second PURGE, a denied
+//!   session, a parser refusal, both dry-run forms); the history is read in depth on both sides
+//!   (whole elements of every kind AS OF every coordinate by SEQ / TX / TIME, CHANGES, HISTORY,
+//!   version-log and journal rows) and the block without its refusing clause must then erase.
+//! * `keys`: a logical key is addressed again (UPSERT typed / untyped / create-only / in another
+//!   Space / under another type, CREATE, in-block combinations with tuple clauses, dry runs) after
+//!   its holder went through every lifecycle transition (archive, tombstone, merge and merge
+//!   chains, quarantine and release, purge, combinations): at most one Concept of a type holds a key
+//!   over all states that keep it, an UPSERT on a held key is bound to the holder.
 //! * `vis`: readers concurrent with writers on a multi-thread runtime must see all or none of a
 //!   statement's elements.
 //! * `crash`: RecStore below the engine; every crash prefix must reopen and expose no pending row;
@@ -78,6 +89,9 @@ struct Obs {
     asof: BTreeMap<u64, Vec<String>>,
     seq: u64,
     n_queries: u64,
+    /// the history read in depth (sections `hist` / `keys`): whole elements of every kind AS OF
+    /// every coordinate, AS OF TX / AS OF TIME of every journal row, CHANGES from several points
+    deep: BTreeMap<String, String>,
 }
 
 async fn run_q(nexus: &CognitiveNexus, q: &str, mask: bool) -> Result<String, String> {
@@ -92,6 +106,51 @@ async fn run_q(nexus: &CognitiveNexus, q: &str, mask: bool) -> Result<String, St
 }
 
 async fn observe(nexus: &CognitiveNexus) -> Result<Obs, String> {
+    observe_with(nexus, false).await
+}
+
+/// What a historical read can say about every element, beyond the four `asof_queries` families:
+/// the whole rendered element of every kind at every coordinate, the same through the two other
+/// ways of naming a coordinate (transaction id, commit time), the change stream from several
+/// starting points. Compared before / after a statement that did not commit.
+async fn deep_history(nexus: &CognitiveNexus, scan: &Scan, seq: u64, n: &mut u64) -> Result<BTreeMap<String, String>, String> {
+    let mut qs: Vec<String> = vec![];
+    for k in 0..=seq {
+        for kind in KINDS {
+            qs.push(format!("FIND(?x) WHERE {{ ?x {kind} {{}} }} AS OF SEQ {k}"));
+        }
+        qs.push(format!("FIND(?p, ?s.id, ?o.id) WHERE {{ ?p PROPOSITION (?s, ?pr, ?o) }} AS OF SEQ {k}"));
+        if k % 4 == 1 {
+            qs.push(format!("CHANGES AFTER SEQ {k} LIMIT 100000"));
+        }
+    }
+    for row in scan["transactions"].values() {
+        if row["space"] != DEFAULT_SPACE {
+            continue;
+        }
+        if let Some(tx) = row["tx_id"].as_str() {
+            qs.push(format!("FIND(?c.id, ?c._system.version, ?c._system.state, ?c.name) WHERE {{ ?c CONCEPT {{}} }} AS OF TX {}", jstr(tx)));
+            qs.push(format!("FIND(?e.id, ?e._system.version) WHERE {{ ?e EVIDENCE {{}} }} AS OF TX {}", jstr(tx)));
+        }
+        if let Some(at) = row["committed_at"].as_str() {
+            qs.push(format!("FIND(?c.id, ?c._system.version, ?c._system.state, ?c.name) WHERE {{ ?c CONCEPT {{}} }} AS OF TIME {}", jstr(at)));
+            qs.push(format!("FIND(?x.id, ?x._system.version) WHERE {{ ?x ACTIVITY {{}} }} AS OF TIME {}", jstr(at)));
+            qs.push(format!("FIND(?a.id, ?a.lifecycle.status, ?a._system.version) WHERE {{ ?a ASSERTION {{}} }} AS OF TIME {}", jstr(at)));
+        }
+    }
+    let mut out = BTreeMap::new();
+    for q in qs {
+        if out.contains_key(&q) {
+            continue;
+        }
+        let a = run_q(nexus, &q, false).await?;
+        *n += 1;
+        out.insert(q, a);
+    }
+    Ok(out)
+}
+
+async fn observe_with(nexus: &CognitiveNexus, deep: bool) -> Result<Obs, String> {
     let scan = scan(nexus).await?;
     let seq = space_seq(&scan);
     let mut battery = BTreeMap::new();
@@ -136,7 +195,8 @@ async fn observe(nexus: &CognitiveNexus) -> Result<Obs, String> {
         }
         asof.insert(k, v);
     }
-    Ok(Obs { rows: masked(&scan), scan, battery, asof, seq, n_queries: n })
+    let deep = if deep { deep_history(nexus, &scan, seq, &mut n).await? } else { BTreeMap::new() };
+    Ok(Obs { rows: masked(&scan), scan, battery, asof, seq, n_queries: n, deep })
 }
 
 // ---------------------------------------------------------------------------------------------
@@ -226,6 +286,20 @@ fn check_unchanged(before: &Obs, after: &Obs, what: &str, code: &str, st: &mut S
                        "after": b.iter().map(|s| clip(s)).collect::<Vec<_>>(), "context": ctx()})
             });
             break;
+        }
+    }
+    // the history in depth (sections that read it): every answer recorded before is the answer now
+    if !before.deep.is_empty() {
+        st.count("oracle_history_in_depth_unchanged");
+        let moved: Vec<&String> = before.deep.iter().filter(|(q, a)| after.deep.get(*q).map(|b| b != *a).unwrap_or(true)).map(|(q, _)| q).collect();
+        st.add("history_reads_compared", before.deep.len() as u64);
+        if !moved.is_empty() {
+            report_once(st, &format!("C17/{class}/history_read_changed"), || {
+                let q = moved[0];
+                json!({"what": "a historical read (whole elements AS OF SEQ / TX / TIME, CHANGES) answers differently after a statement that did not commit",
+                       "queries_that_moved": moved.len(), "first": q, "before": clip(&before.deep[q]),
+                       "after": after.deep.get(q).map(|s| clip(s)), "context": ctx()})
+            });
         }
     }
     // the coordinates the statement burnt read like the one before them
@@ -353,8 +427,22 @@ fn check_commit(before: &Obs, after: &Obs, out: &Outcome, single_clause: bool, m
     // version log: one new row per named element, equal to the stored row; nothing else moved
     st.count("oracle_version_log_rows");
     let (vb, va) = (&before.scan["element_versions"], &after.scan["element_versions"]);
-    if vb.iter().any(|(id, r)| va.get(id).map(|x| canon(x) != canon(r)).unwrap_or(true)) {
-        fail(st, "older_version_rows_changed_or_removed", json!(null));
+    // a committed PURGE destroys the recorded versions of the elements it names with op `purge`
+    // (governance/purge.rs: "every historical version of it in the version log"); of nothing else
+    let purged: BTreeSet<String> = out.changes().into_iter().filter(|c| c.1 == "purge").map(|c| c.0).collect();
+    let moved: Vec<String> = vb
+        .iter()
+        .filter(|(id, r)| va.get(*id).map(|x| canon(x) != canon(r)).unwrap_or(true))
+        .map(|(_, r)| r["element"].as_str().unwrap_or("").to_string())
+        .collect();
+    if moved.iter().any(|el| !purged.contains(el)) {
+        fail(st, "older_version_rows_changed_or_removed", json!({"elements": moved, "purged_by_this_statement": purged}));
+    }
+    if !purged.is_empty() {
+        st.add("elements_purged_by_committed_statements", purged.len() as u64);
+        if vb.iter().any(|(id, r)| va.contains_key(id) && purged.contains(r["element"].as_str().unwrap_or(""))) {
+            st.count("purged_elements_with_older_version_rows_left(measured)");
+        }
     }
     let mut per: BTreeMap<String, Vec<&Value>> = BTreeMap::new();
     for (id, r) in va {
@@ -403,7 +491,9 @@ fn check_identity(after: &Obs, st: &mut Stats, ctx: &dyn Fn() -> Value) {
     st.count("oracle_identity_scan");
     let mut tuples: BTreeMap<(String, String, String, String), Vec<u64>> = BTreeMap::new();
     for (id, r) in &after.scan["propositions"] {
-        if r["state"] == "pending" {
+        // a purged Proposition is an identity stub that carries nothing of the tuple it was
+        // (governance/purge.rs `stub`: every column empty, a per-element placeholder as tuple key)
+        if r["state"] == "pending" || r["state"] == "purged" {
             continue;
         }
         let s = |k: &str| r[k].as_str().unwrap_or("").to_string();
@@ -555,6 +645,89 @@ fn check_tuple_resolution(before: &Obs, after: &Obs, stmt: &Stmt, out: &Outcome,
     }
 }
 
+/// One `UPSERT CONCEPT ?h { MATCH {type: "T", key: "K"} .. }` clause of a statement as written:
+/// (handle, declared type, key); selectors by `id` are skipped. Values are JSON string literals or
+/// parameters.
+fn upserts_named(cmd: &Cmd) -> Vec<(String, Option<String>, String)> {
+    let mut out = vec![];
+    let text = &cmd.text;
+    let mut from = 0;
+    while let Some(at) = text[from..].find("UPSERT CONCEPT ?") {
+        let start = from + at + "UPSERT CONCEPT ?".len();
+        from = start;
+        let handle: String = text[start..].chars().take_while(|c| c.is_alphanumeric() || *c == '_').collect();
+        let Some(m) = text[start..].find("MATCH {") else { continue };
+        let inner_from = start + m + "MATCH {".len();
+        let Some(close) = text[inner_from..].find('}') else { continue };
+        let inner = &text[inner_from..inner_from + close];
+        let value = |name: &str| -> Option<String> {
+            let at = inner.find(&format!("{name}: "))?;
+            let rest = inner[at + name.len() + 2..].trim_start();
+            if let Some(p) = rest.strip_prefix(':') {
+                let pname: String = p.chars().take_while(|c| c.is_alphanumeric() || *c == '_').collect();
+                return cmd.params.get(&pname).and_then(|v| v.as_str()).map(|s| s.to_string());
+            }
+            let mut de = serde_json::Deserializer::from_str(rest).into_iter::<String>();
+            de.next().and_then(|r| r.ok())
+        };
+        if let Some(key) = value("key") {
+            out.push((handle, value("type"), key));
+        }
+    }
+    out
+}
+
+/// "A logical key identifies at most one concept of a type", read at the clause that addresses a
+/// Concept by its key: the element a committed `UPSERT CONCEPT .. MATCH {type, key}` is bound to
+/// carries that key (in the Space of the request, under the declared type), and when a Concept
+/// held the key before the statement - in whatever engine state: archived, tombstoned, merged and
+/// quarantined Concepts keep their row, id, key and every reference to them - it is that Concept.
+fn check_upsert_binding(before: &Obs, after: &Obs, stmt: &Stmt, out: &Outcome, st: &mut Stats, ctx: &dyn Fn() -> Value) {
+    let named = upserts_named(&stmt.cmd);
+    if named.is_empty() {
+        return;
+    }
+    let space = stmt.cmd.space.clone().unwrap_or_else(|| DEFAULT_SPACE.to_string());
+    let purged: BTreeSet<String> = out.changes().into_iter().filter(|c| c.1 == "purge").map(|c| c.0).collect();
+    let (eb, ea) = (elements(&before.scan), elements(&after.scan));
+    for (h, typ, key) in named {
+        if key.is_empty() {
+            continue;
+        }
+        let Some(bound) = out.handle(&h) else {
+            st.count("upsert_clauses_without_a_bound_handle(measured)");
+            continue;
+        };
+        if purged.contains(&bound) {
+            continue;
+        }
+        let holds = |r: &Value| {
+            r["state"] != "pending"
+                && r["space"] == json!(space)
+                && r["key"] == json!(key)
+                && typ.as_ref().map(|t| local_name(r["schema_ref"].as_str().unwrap_or("")) == *t).unwrap_or(true)
+        };
+        st.count("oracle_upsert_binds_a_holder_of_its_key");
+        if ea.get(&bound).map(|r| holds(r)) != Some(true) {
+            report_once(st, "C17/identity/upsert_bound_an_element_that_does_not_hold_the_key", || {
+                json!({"what": "the element a committed UPSERT .. MATCH {type, key} is bound to does not carry that key under that type in the Space of the request",
+                       "handle": h, "space": space, "type": typ, "key": key, "bound": bound, "row": ea.get(&bound), "context": ctx()})
+            });
+        }
+        let holders: Vec<(&String, &&Value)> = eb.iter().filter(|(id, r)| id.starts_with("C-") && holds(r)).collect();
+        if let Some((hid, hrow)) = holders.first() {
+            st.count("oracle_upsert_on_a_held_key_resolves_to_the_holder");
+            st.count(&format!("upsert_on_a_key_whose_holder_is:{}", hrow["state"].as_str().unwrap_or("?")));
+            if !holders.iter().any(|(id, _)| **id == bound) {
+                report_once(st, "C17/identity/upsert_minted_a_second_concept_under_a_held_key", || {
+                    json!({"what": "a Concept already held (type, key) when the statement ran, and the UPSERT addressing that key was bound to another element",
+                           "space": space, "type": typ, "key": key, "holder": hid, "holder_state": hrow["state"], "bound": bound, "context": ctx()})
+                });
+            }
+        }
+    }
+}
+
 /// Whether a statement names one tuple in two clauses (terms compared as written, parameters by
 /// value): such a statement must not be refused for colliding with itself.
 fn names_a_tuple_twice(stmt: &Stmt) -> bool {
@@ -562,6 +735,111 @@ fn names_a_tuple_twice(stmt: &Stmt) -> bool {
     tuples_named(&stmt.cmd.text)
         .into_iter()
         .any(|(_, _, s, p, o)| !seen.insert((denote(&s, &stmt.cmd, None), p, denote(&o, &stmt.cmd, None))))
+}
+
+/// The per-statement verdict shared by the sections that play statements one after the other:
+/// which oracle applies follows from how the statement ended (parser refusal, dry run, commit,
+/// refusal), the identity scan runs after every one of them.
+struct Judge {
+    case: u64,
+    history: Vec<Value>,
+    max_seq: u64,
+    n_commit: u64,
+    n_refused: u64,
+    codes: BTreeSet<String>,
+}
+
+impl Judge {
+    fn new(case: u64, seq: u64) -> Judge {
+        Judge { case, history: vec![], max_seq: seq, n_commit: 0, n_refused: 0, codes: BTreeSet::new() }
+    }
+
+    fn judge(&mut self, st: &mut Stats, before: &Obs, after: &Obs, stmt: &Stmt, out: &Outcome) {
+        let case = self.case;
+        st.eval();
+        st.add("battery_queries", after.n_queries);
+        st.set("statement_shapes", vcore::fnv_str(&format!("{:?}{:?}{}", stmt.kinds, stmt.fail, stmt.dry)));
+        for k in &stmt.kinds {
+            st.count(&format!("clause:{k}"));
+        }
+        if stmt.kinds.len() > 1 {
+            st.count("multi_clause_statements");
+        }
+        if stmt.retry_of_previous {
+            st.count("retries_of_identical_request");
+        }
+        if stmt.cmd.idempotency_key.is_some() {
+            st.count("statements_with_idempotency_key");
+        }
+        let h2 = self.history.clone();
+        let (s2, o2) = (stmt.clone(), out.clone());
+        let cx = move || ctx(case, &h2, &s2, &o2);
+        if out.parse_error.is_some() {
+            st.count("stmt_refused_by_parser");
+            check_unchanged(before, after, "parser_refused", "", st, &cx);
+        } else if stmt.dry != "none" {
+            // PREVIEW KML answers `succeeded` with would_commit=false when the plan refuses
+            let inner_ok = if stmt.dry == "preview" { out.result["would_commit"] == json!(true) } else { out.succeeded };
+            st.count(&format!("dry_run:{}:{}", stmt.dry, if inner_ok { "would_commit" } else { "refused" }));
+            if out.space_seq.is_some() || out.result["receipt"]["space_seq"].is_u64() {
+                report_once(st, "C17/dry_run/reports_a_commit_sequence", &cx);
+            }
+            check_unchanged(before, after, "dry_run", "", st, &cx);
+        } else if out.committed() {
+            if out.receipt_status == "committed" {
+                st.count("stmt_committed");
+                self.n_commit += 1;
+            } else {
+                st.count("stmt_committed_no_effect");
+            }
+            check_commit(before, after, out, stmt.kinds.len() == 1, self.max_seq, st, &cx);
+            check_tuple_resolution(before, after, stmt, out, st, &cx);
+            check_upsert_binding(before, after, stmt, out, st, &cx);
+            self.max_seq = self.max_seq.max(out.space_seq.unwrap_or(0));
+        } else if out.succeeded {
+            report_once(st, "C17/succeeded_without_commit_sequence", &cx);
+        } else {
+            st.count("stmt_refused");
+            st.count(&format!("refused:{}", out.error_code));
+            self.codes.insert(out.error_code.clone());
+            self.n_refused += 1;
+            if let Some((class, pos)) = stmt.fail {
+                st.count(&format!("refused_class:{class}"));
+                st.count(&format!("refused_position:{pos}"));
+                st.set("refusal_class_x_position", vcore::fnv_str(&format!("{class}@{pos}")));
+            }
+            // two clauses of one block naming one tuple resolve to one element; they do not
+            // collide with each other on the tuple's identity
+            // (nor with the element that already is that tuple: writers are exclusive, so there is
+            // no race that could make a tuple-identity conflict a legitimate answer)
+            if out.error_code == "IdentityConflict" && out.error_message.contains("tuple") {
+                if names_a_tuple_twice(stmt) {
+                    report_once(st, "C17/identity/same_tuple_twice_in_one_block_collides", || {
+                        json!({"what": "a statement naming one proposition tuple in two clauses was refused for an identity conflict with itself", "context": cx()})
+                    });
+                } else {
+                    report_once(st, "C17/identity/tuple_clause_collides_instead_of_resolving", || {
+                        json!({"what": "a statement naming a proposition tuple was refused for a tuple-identity conflict instead of resolving to the one element of that tuple", "context": cx()})
+                    });
+                }
+            }
+            check_unchanged(before, after, "refused", &out.error_code, st, &cx);
+        }
+        if let (Some((class, _)), true) = (stmt.fail, out.succeeded && stmt.dry == "none") {
+            // `same_tuple_twice` is not a failure class: it must commit (see check_tuple_resolution)
+            if class != SAME_TUPLE_TWICE {
+                st.count(&format!("injected_failure_did_not_refuse:{class}"));
+            }
+        }
+        check_identity(after, st, &cx);
+        self.max_seq = self.max_seq.max(after.seq);
+        self.history.push(json!({"cmd": stmt.cmd.describe(), "restricted": stmt.restricted,
+            "outcome": if out.committed() { format!("{}@{}", out.receipt_status, out.space_seq.unwrap_or(0)) }
+                       else if out.succeeded { "dry".to_string() } else { format!("refused:{}", out.error_code) }}));
+        if self.history.len() > 40 {
+            self.history.remove(0);
+        }
+    }
 }
 
 // ---------------------------------------------------------------------------------------------
@@ -632,11 +910,8 @@ async fn seq_case_async(case: u64, rng: &mut Rng, st: &mut Stats, n_stmts: usize
     let fx = fixture(Arc::new(InMemory::new()), &format!("c17_{case}"), true).await?;
     let mut g = Gen { uid: 0, tag: format!("c{case}") };
     let mut before = observe(&fx.nexus).await?;
-    let mut history: Vec<Value> = vec![];
     let mut prev: Option<Stmt> = None;
-    let mut max_seq = before.seq;
-    let (mut n_commit, mut n_refused) = (0, 0);
-    let mut codes = BTreeSet::new();
+    let mut j = Judge::new(case, before.seq);
     // one case in four plays a scripted merge chain in the middle of its generated statements:
     // a -> b, b -> c, then tuple clauses that name the Concept TWO hops from its survivor; they
     // must resolve to the Proposition that already exists about the survivor
@@ -696,95 +971,681 @@ async fn seq_case_async(case: u64, rng: &mut Rng, st: &mut Stats, n_stmts: usize
             }
         }
         let after = observe(&fx.nexus).await?;
-        st.eval();
-        st.add("battery_queries", after.n_queries);
-        st.set("statement_shapes", vcore::fnv_str(&format!("{:?}{:?}{}", stmt.kinds, stmt.fail, stmt.dry)));
-        for k in &stmt.kinds {
-            st.count(&format!("clause:{k}"));
-        }
-        if stmt.kinds.len() > 1 {
-            st.count("multi_clause_statements");
-        }
-        if stmt.retry_of_previous {
-            st.count("retries_of_identical_request");
-        }
-        if stmt.cmd.idempotency_key.is_some() {
-            st.count("statements_with_idempotency_key");
-        }
-        let h2 = history.clone();
-        let (s2, o2) = (stmt.clone(), out.clone());
-        let cx = move || ctx(case, &h2, &s2, &o2);
-        if out.parse_error.is_some() {
-            st.count("stmt_refused_by_parser");
-            check_unchanged(&before, &after, "parser_refused", "", st, &cx);
-        } else if stmt.dry != "none" {
-            // PREVIEW KML answers `succeeded` with would_commit=false when the plan refuses
-            let inner_ok = if stmt.dry == "preview" { out.result["would_commit"] == json!(true) } else { out.succeeded };
-            st.count(&format!("dry_run:{}:{}", stmt.dry, if inner_ok { "would_commit" } else { "refused" }));
-            if out.space_seq.is_some() || out.result["receipt"]["space_seq"].is_u64() {
-                report_once(st, "C17/dry_run/reports_a_commit_sequence", &cx);
-            }
-            check_unchanged(&before, &after, "dry_run", "", st, &cx);
-        } else if out.committed() {
-            if out.receipt_status == "committed" {
-                st.count("stmt_committed");
-                n_commit += 1;
-            } else {
-                st.count("stmt_committed_no_effect");
-            }
-            check_commit(&before, &after, &out, stmt.kinds.len() == 1, max_seq, st, &cx);
-            check_tuple_resolution(&before, &after, &stmt, &out, st, &cx);
-            max_seq = max_seq.max(out.space_seq.unwrap_or(0));
-        } else if out.succeeded {
-            report_once(st, "C17/succeeded_without_commit_sequence", &cx);
-        } else {
-            st.count("stmt_refused");
-            st.count(&format!("refused:{}", out.error_code));
-            codes.insert(out.error_code.clone());
-            n_refused += 1;
-            if let Some((class, pos)) = stmt.fail {
-                st.count(&format!("refused_class:{class}"));
-                st.count(&format!("refused_position:{pos}"));
-                st.set("refusal_class_x_position", vcore::fnv_str(&format!("{class}@{pos}")));
-            }
-            // two clauses of one block naming one tuple resolve to one element; they do not
-            // collide with each other on the tuple's identity
-            // (nor with the element that already is that tuple: writers are exclusive, so there is
-            // no race that could make a tuple-identity conflict a legitimate answer)
-            if out.error_code == "IdentityConflict" && out.error_message.contains("tuple") {
-                if names_a_tuple_twice(&stmt) {
-                    report_once(st, "C17/identity/same_tuple_twice_in_one_block_collides", || {
-                        json!({"what": "a statement naming one proposition tuple in two clauses was refused for an identity conflict with itself", "context": cx()})
-                    });
-                } else {
-                    report_once(st, "C17/identity/tuple_clause_collides_instead_of_resolving", || {
-                        json!({"what": "a statement naming a proposition tuple was refused for a tuple-identity conflict instead of resolving to the one element of that tuple", "context": cx()})
-                    });
-                }
-            }
-            check_unchanged(&before, &after, "refused", &out.error_code, st, &cx);
-        }
-        if let (Some((class, _)), true) = (stmt.fail, out.succeeded && stmt.dry == "none") {
-            // `same_tuple_twice` is not a failure class: it must commit (see check_tuple_resolution)
-            if class != SAME_TUPLE_TWICE {
-                st.count(&format!("injected_failure_did_not_refuse:{class}"));
-            }
-        }
-        check_identity(&after, st, &cx);
-        max_seq = max_seq.max(after.seq);
-        history.push(json!({"cmd": stmt.cmd.describe(), "restricted": stmt.restricted,
-            "outcome": if out.committed() { format!("{}@{}", out.receipt_status, out.space_seq.unwrap_or(0)) }
-                       else if out.succeeded { "dry".to_string() } else { format!("refused:{}", out.error_code) }}));
-        if history.len() > 40 {
-            history.remove(0);
-        }
+        j.judge(st, &before, &after, &stmt, &out);
         prev = Some(stmt);
         before = after;
     }
-    if n_commit >= 3 && n_refused >= 3 && codes.len() >= 2 {
-        st.distinct(vcore::hash_debug(&history));
+    if j.n_commit >= 3 && j.n_refused >= 3 && j.codes.len() >= 2 {
+        st.distinct(vcore::hash_debug(&j.history));
     }
-    st.sample(|| json!({"monitor": "seq", "case": case, "statements": history.iter().take(6).collect::<Vec<_>>()}));
+    st.sample(|| json!({"monitor": "seq", "case": case, "statements": j.history.iter().take(6).collect::<Vec<_>>()}));
+    Ok(())
+}
+
+// ---------------------------------------------------------------------------------------------
+// monitors 1c / 1d share this: one statement played against the fixture, observed and judged
+
+const CFG_COMMITS_ONLY: GenCfg = GenCfg { fail_pct: 0, dry_pct: 0, restricted: false, retries: false, no_effect: false, commit_time_failures: false };
+
+fn plain_stmt(text: String, kinds: Vec<&'static str>, params: Vec<(&str, String)>) -> Stmt {
+    let mut cmd = Cmd::new(text);
+    for (k, v) in params {
+        cmd = cmd.param(k, json!(v));
+    }
+    Stmt { cmd, kinds, fail: None, dry: "none", restricted: false, retry_of_previous: false }
+}
+
+fn block_of(clauses: &[(&'static str, String)]) -> String {
+    format!("MUTATE {{\n  {}\n}}", clauses.iter().map(|c| c.1.as_str()).collect::<Vec<_>>().join("\n  "))
+}
+
+/// Executes `stmt` (through `session` when given, else as the system), observes and judges it.
+/// `deep`: the history is read in depth on both sides of the statement.
+async fn play(nexus: &CognitiveNexus, session: Option<&Session>, j: &mut Judge, st: &mut Stats, before: &mut Obs, stmt: &Stmt, deep: bool) -> Result<Outcome, String> {
+    if deep && before.deep.is_empty() {
+        let mut n = 0;
+        before.deep = deep_history(nexus, &before.scan, before.seq, &mut n).await?;
+        st.add("battery_queries", n);
+    }
+    let via = match session {
+        Some(s) => Via::Session(s),
+        None => Via::System(nexus),
+    };
+    let out = exec(&via, &stmt.cmd).await?;
+    let after = observe_with(nexus, deep).await?;
+    j.judge(st, before, &after, stmt, &out);
+    *before = after;
+    Ok(out)
+}
+
+// ---------------------------------------------------------------------------------------------
+// monitor 1c: statements that hold a PURGE - the one clause that destroys recorded history - and
+// do not commit, for every way the engine has of not committing: the four refusals found by the
+// commit-time validation of the write set, planning refusals in front of and behind the PURGE
+// clause, a second PURGE that is refused, a session that may purge but not do the rest, a text the
+// parser refuses, the two dry-run forms. The observation reads the history in depth (whole
+// elements of every kind AS OF every coordinate by SEQ, by TX, by TIME; the change stream; HISTORY
+// of every element; the version-log and journal rows themselves). Right after the refused
+// statement the same block WITHOUT the refusing clause is executed: it has to commit and erase,
+// which shows that the PURGE of the refused statement had passed planning.
+
+const ERASER: &str = "kip:principal:eraser";
+
+const HIST_REFUSALS: [&str; 18] = [
+    "commit:key_held",
+    "commit:key_twice_in_block",
+    "commit:key_create_and_upsert_miss",
+    "commit:cross_space_reference",
+    "plan:missing_id",
+    "plan:expect_version",
+    "plan:expect_state",
+    "plan:unknown_type",
+    "plan:unbound_param",
+    "plan:immutable_field",
+    "plan:constraint",
+    "plan:legal_hold_on_second_purge",
+    "plan:second_purge_denied_by_references",
+    "plan:unknown_reference_policy",
+    "plan:authorization",
+    "parser:purge_without_confirm",
+    "dry:option",
+    "dry:preview",
+];
+
+const PURGE_SHAPES: [&str; 9] = [
+    "concept_by_literal",
+    "concept_by_parameter",
+    "concept_by_selection",
+    "evidence",
+    "activity",
+    "assertion",
+    "proposition",
+    "referenced_concept_keeping_the_stub",
+    "referenced_concept_with_cascade",
+];
+
+fn hist_case(case: u64, rng: &mut Rng, st: &mut Stats, rounds: usize) {
+    set_case("hist", case);
+    let r = vcore::run::block_on(hist_case_async(case, rng, st, rounds));
+    if let Err(e) = r {
+        st.inconclusive(format!("C17 hist: harness trouble: {e}"));
+    }
+}
+
+async fn hist_case_async(case: u64, rng: &mut Rng, st: &mut Stats, rounds: usize) -> Result<(), String> {
+    let fx = fixture(Arc::new(InMemory::new()), &format!("c17h_{case}"), true).await?;
+    let gov = fx.nexus.governance();
+    gov.ensure_principal(PrincipalDraft {
+        principal_id: ERASER.into(),
+        principal_class: principal_class::AGENT.to_string(),
+        display_name: "eraser".into(),
+        auth_provider: "verif".into(),
+        auth_subject: "eraser".into(),
+    })
+    .await
+    .map_err(|e| format!("{e:?}"))?;
+    gov.create_grant(
+        GrantDraft {
+            space_id: DEFAULT_SPACE.into(),
+            grantee_principal: ERASER.into(),
+            actions: vec!["read".into(), "create".into(), "update".into(), "purge".into()],
+            scope: AuthorityScope { kinds: vec!["concept".into()], ..Default::default() },
+            ..Default::default()
+        },
+        SYSTEM_PRINCIPAL,
+    )
+    .await
+    .map_err(|e| format!("{e:?}"))?;
+    let eraser = fx.nexus.session(AuthContext::principal(ERASER));
+    let nexus = &fx.nexus;
+    let t = format!("h{case}");
+    let mut g = Gen { uid: 0, tag: t.clone() };
+    let mut before = observe(nexus).await?;
+    let mut j = Judge::new(case, before.seq);
+    let hk = format!("hk-{t}");
+
+    let base = plain_stmt(
+        block_of(&[
+            ("create_concept", format!("CREATE CONCEPT ?h {{ TYPE \"Person\" NAME \"holder {t}\" SET FIELDS {{key: {}}} }}", jstr(&hk))),
+            ("create_concept", format!("CREATE CONCEPT ?r {{ TYPE \"Person\" NAME \"referenced {t}\" }}")),
+            ("create_concept", format!("CREATE CONCEPT ?d {{ TYPE \"Preference\" NAME \"dark {t}\" SET ATTRIBUTES {{strength: 0.5}} }}")),
+            ("create_concept", format!("CREATE CONCEPT ?lh {{ TYPE \"Person\" NAME \"held {t}\" }}")),
+            ("ensure", "ENSURE PROPOSITION ?p (?r, \"prefers\", ?d)".to_string()),
+            ("create_evidence", format!("CREATE EVIDENCE ?e {{ SET FIELDS {{evidence_class: \"user_statement\", payload: \"base {t}\"}} }}")),
+            ("create_assertion", "CREATE ASSERTION ?a { SET FIELDS {proposition: ?p, asserted_by: ?r, stance: \"support\", mode: \"stated\", confidence: 0.7} SET STRUCTURAL { (\"evidence\", ?e) {role: \"support\"} } }".to_string()),
+        ]),
+        vec!["create_concept", "create_concept", "create_concept", "create_concept", "ensure", "create_evidence", "create_assertion"],
+        vec![],
+    );
+    let o = play(nexus, None, &mut j, st, &mut before, &base, false).await?;
+    let (Some(r), Some(d), Some(lh), Some(p)) = (o.handle("r"), o.handle("d"), o.handle("lh"), o.handle("p")) else {
+        st.count(&format!("hist_base_not_committed:{}", o.error_code));
+        return Ok(());
+    };
+    for _ in 0..rng.range(1, 3) {
+        let w = world_of(&before.scan);
+        let s = gen_stmt(rng, &mut g, &w, None, &CFG_COMMITS_ONLY);
+        play(nexus, None, &mut j, st, &mut before, &s, false).await?;
+    }
+    let hold = plain_stmt(format!("SET RETENTION {} {{ legal_hold: true }}", jstr(&lh)), vec!["set_retention"], vec![]);
+    let o = play(nexus, None, &mut j, st, &mut before, &hold, false).await?;
+    if !o.committed() {
+        st.count(&format!("hist_legal_hold_not_committed:{}", o.error_code));
+    }
+
+    for round in 0..rounds {
+        let kind = HIST_REFUSALS[(case as usize * rounds + round) % HIST_REFUSALS.len()];
+        let by_eraser = kind == "plan:authorization";
+        let no_params = kind == "dry:preview";
+        let u = g.next();
+        if round > 0 && rng.bool() {
+            let w = world_of(&before.scan);
+            let s = gen_stmt(rng, &mut g, &w, None, &CFG_COMMITS_ONLY);
+            play(nexus, None, &mut j, st, &mut before, &s, false).await?;
+        }
+        // --- the elements to erase: one statement creates them, a second gives them a second version
+        let vc_name = format!("victim {t} {u}");
+        let vkey = if rng.bool() { format!(" SET FIELDS {{key: {}}}", jstr(&format!("vk-{t}-{u}"))) } else { String::new() };
+        let v1 = plain_stmt(
+            block_of(&[
+                ("create_concept", format!("CREATE CONCEPT ?vc {{ TYPE \"Person\" NAME {}{vkey} SET ATTRIBUTES {{note: 1}} }}", jstr(&vc_name))),
+                ("create_concept", format!("CREATE CONCEPT ?vs {{ TYPE \"Person\" NAME \"subject {t} {u}\" }}")),
+                ("create_concept", format!("CREATE CONCEPT ?vo {{ TYPE \"Preference\" NAME \"object {t} {u}\" }}")),
+                ("ensure", "ENSURE PROPOSITION ?vp (?vs, \"prefers\", ?vo)".to_string()),
+                ("create_evidence", format!("CREATE EVIDENCE ?ve {{ SET FIELDS {{evidence_class: \"user_statement\", payload: \"secret {t} {u}\"}} }}")),
+                ("create_activity", "CREATE ACTIVITY ?vx { SET FIELDS {activity_class: \"reflection\"} }".to_string()),
+                ("create_assertion", format!("CREATE ASSERTION ?va {{ SET FIELDS {{proposition: {}, asserted_by: {}, stance: \"support\", mode: \"observed\", confidence: 0.4}} }}", jstr(&p), jstr(&r))),
+            ]),
+            vec!["create_concept", "create_concept", "create_concept", "ensure", "create_evidence", "create_activity", "create_assertion"],
+            vec![],
+        );
+        // (these two are ordinary commits of the kind `seq` judges by the thousand: executed only)
+        let o = exec(&Via::System(nexus), &v1.cmd).await?;
+        let hs: Vec<Option<String>> = ["vc", "vs", "vo", "vp", "ve", "vx", "va"].iter().map(|h| o.handle(h)).collect();
+        if !o.committed() || hs.iter().any(|h| h.is_none()) {
+            st.count(&format!("hist_victims_not_created:{}", o.error_code));
+            before = observe(nexus).await?;
+            continue;
+        }
+        let hs: Vec<String> = hs.into_iter().flatten().collect();
+        let (vc, vs, vo, vp, ve, vx, va) = (&hs[0], &hs[1], &hs[2], &hs[3], &hs[4], &hs[5], &hs[6]);
+        let v2 = plain_stmt(
+            block_of(&[
+                ("update_concept", format!("UPDATE {} SET ATTRIBUTES {{note: 2}}", jstr(vc))),
+                ("update_concept", format!("UPDATE {} SET ATTRIBUTES {{note: 2}}", jstr(vs))),
+                ("update_concept", format!("UPDATE {} SET ATTRIBUTES {{strength: 0.{}}}", jstr(vo), rng.range(1, 9))),
+                ("update_proposition", format!("UPDATE {} SET ATTRIBUTES {{note: 2}}", jstr(vp))),
+                ("set_retention", format!("SET RETENTION {} {{ retention_class: \"standard\", expires_at: \"2035-01-01T00:00:00Z\" }}", jstr(ve))),
+                ("transition", format!("TRANSITION ACTIVITY {} TO \"running\"", jstr(vx))),
+                ("set_retention", format!("SET RETENTION {} {{ retention_class: \"standard\", expires_at: \"2036-01-01T00:00:00Z\" }}", jstr(va))),
+            ]),
+            vec!["update_concept", "update_concept", "update_concept", "update_proposition", "set_retention", "transition", "set_retention"],
+            vec![],
+        );
+        let o = exec(&Via::System(nexus), &v2.cmd).await?;
+        if !o.committed() {
+            st.count(&format!("hist_second_versions_not_committed:{}", o.error_code));
+        }
+        before = observe(nexus).await?;
+        j.max_seq = j.max_seq.max(before.seq);
+        j.history.push(json!({"cmd": v1.cmd.describe(), "outcome": "committed (victims)"}));
+        j.history.push(json!({"cmd": v2.cmd.describe(), "outcome": if o.committed() { "committed (second versions)".to_string() } else { format!("refused:{}", o.error_code) }}));
+
+        // --- the PURGE clauses
+        let mut params: Vec<(&str, String)> = vec![];
+        let mut clauses: Vec<(&'static str, String)> = vec![];
+        let mut shapes: Vec<&'static str> = vec![];
+        let mut expected: BTreeSet<String> = BTreeSet::new();
+        let primary = (case as usize + round) % 5;
+        let want = |g: usize, rng: &mut Rng| g == primary || rng.chance(1, 3);
+        if by_eraser || want(0, rng) {
+            let shape = if no_params { [0, 2][rng.usize(2)] } else { rng.usize(3) };
+            match shape {
+                0 => clauses.push(("purge", format!("PURGE {} CONFIRM \"PURGE\"", jstr(vc)))),
+                1 => {
+                    params.push(("pv", vc.clone()));
+                    clauses.push(("purge", "PURGE :pv CONFIRM \"PURGE\"".to_string()));
+                }
+                _ => clauses.push(("purge_selection", format!("PURGE ?t WHERE {{ ?t CONCEPT {{name: {}}} }} LIMIT 1 CONFIRM \"PURGE\"", jstr(&vc_name)))),
+            }
+            shapes.push(PURGE_SHAPES[shape]);
+            expected.insert(vc.clone());
+        }
+        if !by_eraser {
+            for (grp, id, shape) in [(1usize, ve, 3usize), (2, vx, 4), (3, va, 5)] {
+                if want(grp, rng) {
+                    clauses.push(("purge", format!("PURGE {} CONFIRM \"PURGE\"", jstr(id))));
+                    shapes.push(PURGE_SHAPES[shape]);
+                    expected.insert(id.clone());
+                }
+            }
+            if want(4, rng) {
+                match rng.below(3) {
+                    0 => {
+                        clauses.push(("purge", format!("PURGE {} CONFIRM \"PURGE\"", jstr(vp))));
+                        shapes.push(PURGE_SHAPES[6]);
+                        expected.insert(vp.clone());
+                    }
+                    1 => {
+                        clauses.push(("purge_keep_stub", format!("PURGE {} REFERENCE POLICY \"tombstone_reference\" CONFIRM \"PURGE\"", jstr(vs))));
+                        shapes.push(PURGE_SHAPES[7]);
+                        expected.insert(vs.clone());
+                    }
+                    _ => {
+                        clauses.push(("purge_cascade", format!("PURGE {} REFERENCE POLICY \"authorized_cascade\" CONFIRM \"PURGE\"", jstr(vo))));
+                        shapes.push(PURGE_SHAPES[8]);
+                        expected.insert(vo.clone());
+                        expected.insert(vp.clone());
+                    }
+                }
+            }
+        }
+        // --- clauses that have nothing to do with it
+        for _ in 0..rng.weighted(&[30, 40, 30]) {
+            let n = g.next();
+            match rng.below(if by_eraser { 2 } else { 3 }) {
+                0 => clauses.push(("create_concept", format!("CREATE CONCEPT ?f{n} {{ TYPE \"Person\" NAME \"bystander {t} {n}\" }}"))),
+                1 => clauses.push(("update_concept", format!("UPDATE {} SET ATTRIBUTES {{note: {}}}", jstr(&d), 10 + n))),
+                _ => {
+                    clauses.push(("create_concept", format!("CREATE CONCEPT ?f{n} {{ TYPE \"Person\" NAME \"bystander {t} {n}\" }}")));
+                    clauses.push(("ensure", format!("ENSURE PROPOSITION ?fq{n} (?f{n}, \"prefers\", {})", jstr(&d))));
+                }
+            }
+        }
+        rng.shuffle(&mut clauses);
+        let viable = clauses.clone();
+        // --- what keeps the statement from committing
+        let fresh = format!("tw-{t}-{u}");
+        let failing: Vec<String> = match kind {
+            "commit:key_held" => vec![format!("CREATE CONCEPT ?dup{u} {{ TYPE \"Person\" NAME \"usurper\" SET FIELDS {{key: {}}} }}", jstr(&hk))],
+            "commit:key_twice_in_block" => vec![
+                format!("CREATE CONCEPT ?tw{u}a {{ TYPE \"Person\" NAME \"twin a\" SET FIELDS {{key: {}}} }}", jstr(&fresh)),
+                format!("CREATE CONCEPT ?tw{u}b {{ TYPE \"Person\" NAME \"twin b\" SET FIELDS {{key: {}}} }}", jstr(&fresh)),
+            ],
+            "commit:key_create_and_upsert_miss" => vec![
+                format!("UPSERT CONCEPT ?um{u} {{ MATCH {{type: \"Person\", key: {}}} SET FIELDS {{name: \"upserted twin\"}} }}", jstr(&fresh)),
+                format!("CREATE CONCEPT ?cm{u} {{ TYPE \"Person\" NAME \"created twin\" SET FIELDS {{key: {}}} }}", jstr(&fresh)),
+            ],
+            "commit:cross_space_reference" => {
+                let Some(foreign) = world_of(&before.scan).foreign_concept else {
+                    st.count("hist_no_foreign_concept");
+                    continue;
+                };
+                params.push(("foreign", foreign));
+                vec![format!("CREATE CONCEPT ?xs{u} {{ TYPE \"Insight\" NAME \"leaky\" SET ATTRIBUTES {{summary: \"s\"}} SET STRUCTURAL {{ (\"about\", :foreign) }} }}")]
+            }
+            "plan:missing_id" => vec!["UPDATE \"C-99999\" SET ATTRIBUTES {x: 1}".to_string()],
+            "plan:expect_version" => vec![format!("UPDATE {} EXPECT VERSION 99 SET ATTRIBUTES {{x: 1}}", jstr(&d))],
+            "plan:expect_state" => vec![format!("ARCHIVE {} EXPECT STATE \"quarantined\"", jstr(&d))],
+            "plan:unknown_type" => vec![format!("CREATE CONCEPT ?z{u} {{ TYPE \"Spaceship\" NAME \"Enterprise\" }}")],
+            "plan:unbound_param" => vec![format!("UPDATE :unbound{u} SET ATTRIBUTES {{x: 1}}")],
+            "plan:immutable_field" => vec![format!("UPDATE {} SET FIELDS {{key: \"moved\"}}", jstr(&d))],
+            "plan:constraint" => vec![format!("CREATE CONCEPT ?y{u} {{ TYPE \"Insight\" NAME \"no summary\" }}")],
+            "plan:legal_hold_on_second_purge" => vec![format!("PURGE {} CONFIRM \"PURGE\"", jstr(&lh))],
+            "plan:second_purge_denied_by_references" => vec![format!("PURGE {} CONFIRM \"PURGE\"", jstr(&r))],
+            "plan:unknown_reference_policy" => vec![format!("PURGE {} REFERENCE POLICY \"delete_everything\" CONFIRM \"PURGE\"", jstr(&d))],
+            "plan:authorization" => vec![format!("CREATE EVIDENCE ?w{u} {{ SET FIELDS {{evidence_class: \"user_statement\", payload: \"denied\"}} }}")],
+            "parser:purge_without_confirm" => vec![format!("PURGE {}", jstr(&d))],
+            _ => vec![],
+        };
+        let pos = if failing.is_empty() { "none" } else { *rng.pick(&["first", "middle", "last"]) };
+        // supporting clauses of a two-clause conflict go anywhere, the one that completes it where
+        // the position label says
+        for (i, f) in failing.iter().enumerate() {
+            let at = if i + 1 < failing.len() {
+                rng.usize(clauses.len() + 1)
+            } else {
+                match pos {
+                    "first" => 0,
+                    "last" => clauses.len(),
+                    _ => clauses.len() / 2,
+                }
+            };
+            clauses.insert(at, ("f_hist", f.clone()));
+        }
+        let mk = |cl: &[(&'static str, String)], params: &[(&str, String)], dry: &'static str, fail: Option<(&'static str, &'static str)>| {
+            let mut s = plain_stmt(block_of(cl), cl.iter().map(|c| c.0).collect(), params.to_vec());
+            s.fail = fail;
+            s.dry = dry;
+            s.restricted = by_eraser;
+            match dry {
+                "option" => s.cmd.dry_run = true,
+                "preview" => {
+                    let inner = s.cmd.text.clone();
+                    s.cmd = Cmd::new("PREVIEW KML :kml").param("kml", json!(inner));
+                }
+                _ => {}
+            }
+            s
+        };
+        let dry = match kind {
+            "dry:option" => "option",
+            "dry:preview" => "preview",
+            _ => "none",
+        };
+        let session = if by_eraser { Some(&eraser) } else { None };
+        let refused = mk(&clauses, &params, dry, if failing.is_empty() { None } else { Some((kind, pos)) });
+        let o = play(nexus, session, &mut j, st, &mut before, &refused, true).await?;
+        st.count("hist_statements_holding_a_purge_that_must_not_commit");
+        if o.committed() {
+            st.count(&format!("hist_statement_committed_all_the_same:{kind}"));
+            continue;
+        }
+        // --- the same block without the refusing clause: the PURGE was viable
+        let params2: Vec<(&str, String)> = params.iter().filter(|(k, _)| *k != "foreign").cloned().collect();
+        let real = mk(&viable, &params2, "none", None);
+        let o2 = play(nexus, session, &mut j, st, &mut before, &real, false).await?;
+        let erased: BTreeSet<String> = o2.changes().into_iter().filter(|c| c.1 == "purge").map(|c| c.0).collect();
+        if o2.committed() && expected.is_subset(&erased) {
+            st.count(&format!("hist_refusal_with_a_viable_purge:{kind}"));
+            st.count("hist_refusals_with_a_viable_purge");
+            if kind.starts_with("commit:") {
+                st.count("hist_commit_time_refusals_with_a_viable_purge");
+            }
+            for s in &shapes {
+                st.count(&format!("hist_viable_purge_shape:{s}"));
+                st.set("hist_purge_shape_x_refusal", vcore::fnv_str(&format!("{s}|{kind}")));
+            }
+            st.set("hist_refusal_x_position", vcore::fnv_str(&format!("{kind}@{pos}")));
+            st.count(&format!("hist_purge_clauses_in_the_refused_statement:{}", shapes.len()));
+        } else {
+            st.count(&format!("hist_purge_not_viable:{kind}:{}", if o2.committed() { "commits_without_erasing" } else { o2.error_code.as_str() }));
+        }
+    }
+    if j.n_commit >= 3 && j.n_refused >= 3 && j.codes.len() >= 2 {
+        st.distinct(vcore::hash_debug(&j.history));
+    }
+    st.sample(|| json!({"monitor": "hist", "case": case, "statements": j.history.iter().rev().take(4).collect::<Vec<_>>()}));
+    Ok(())
+}
+
+// ---------------------------------------------------------------------------------------------
+// monitor 1d: a logical key is re-addressed after its holder went through every lifecycle
+// transition there is. ARCHIVE, TOMBSTONE, MERGE CONCEPT .. INTO and the host's quarantine all keep
+// the row, its id, its key and every reference to it (clauses.rs `remove`: "Neither archive nor
+// tombstone erases anything"; `merge_concept`: "Nothing is copied and nothing is deleted";
+// governance/element.rs); only PURGE leaves a stub without a key (governance/purge.rs `stub`). So
+// "a logical key identifies at most one concept of a type" counts the holders in EVERY state but
+// `pending` and `purged`-without-key, by the direct scan and by queries naming each state.
+
+const KEY_TRANSITIONS: [&str; 13] = [
+    "none",
+    "archive",
+    "tombstone",
+    "archive+tombstone",
+    "tombstone+archive",
+    "merge",
+    "merge+merge_survivor",
+    "quarantine",
+    "quarantine+release",
+    "archive+quarantine+release",
+    "purge",
+    "merge+archive",
+    "tombstone+quarantine",
+];
+
+const KEY_FORMS: [&str; 12] = [
+    "upsert_typed",
+    "upsert_with_tuple_clauses",
+    "create_same_key",
+    "create_and_upsert_in_one_block",
+    "upsert_untyped",
+    "upsert_create_only",
+    "upsert_other_type",
+    "upsert_other_space",
+    "create_other_space",
+    "dry_upsert",
+    "preview_create",
+    "two_upserts_in_one_block",
+];
+
+fn keys_case(case: u64, rng: &mut Rng, st: &mut Stats) {
+    set_case("keys", case);
+    let r = vcore::run::block_on(keys_case_async(case, rng, st));
+    if let Err(e) = r {
+        st.inconclusive(format!("C17 keys: harness trouble: {e}"));
+    }
+}
+
+/// The Concepts that hold (space, type, key) in the scan: every state but `pending`.
+fn holders_of(scan: &Scan, space: &str, typ: &str, key: &str) -> Vec<(String, String)> {
+    elements(scan)
+        .into_iter()
+        .filter(|(id, r)| id.starts_with("C-") && r["state"] != "pending" && r["space"] == json!(space) && r["key"] == json!(key) && local_name(r["schema_ref"].as_str().unwrap_or("")) == typ)
+        .map(|(id, r)| (id, r["state"].as_str().unwrap_or("").to_string()))
+        .collect()
+}
+
+/// A statement executed in the OTHER Space: the oracles of `Judge` read the default Space's
+/// counter, so this one gets the subset that does not: nothing of the default Space moves, a
+/// refusal moves nothing at all, the identity oracles.
+fn judge_foreign(st: &mut Stats, j: &mut Judge, before: &Obs, after: &Obs, stmt: &Stmt, out: &Outcome) {
+    st.eval();
+    let case = j.case;
+    let h2 = j.history.clone();
+    let (s2, o2) = (stmt.clone(), out.clone());
+    let cx = move || ctx(case, &h2, &s2, &o2);
+    if out.committed() {
+        st.count("stmt_committed_in_the_other_space");
+        let mine = |o: &Obs| -> BTreeMap<String, String> {
+            elements(&o.scan).into_iter().filter(|(_, r)| r["space"] == DEFAULT_SPACE).map(|(id, r)| (id, canon(r))).collect()
+        };
+        let (a, b) = (mine(before), mine(after));
+        // (the battery asks HISTORY ELEMENT for every id of the scan: the questions both sides asked)
+        let asked: BTreeMap<String, String> = after.battery.iter().filter(|(q, _)| before.battery.contains_key(*q)).map(|(q, a)| (q.clone(), a.clone())).collect();
+        if a != b || before.battery != asked || before.asof != after.asof {
+            let d = diff_maps(&a, &b, 8);
+            let dq = diff_maps(&before.battery, &asked, 8);
+            report_once(st, "C17/commit/statement_in_another_space_changed_this_space", || json!({"element_rows": d, "query_answers": dq, "past_reads_moved": before.asof != after.asof, "context": cx()}));
+        }
+        check_upsert_binding(before, after, stmt, out, st, &cx);
+    } else {
+        st.count(&format!("refused_in_the_other_space:{}", out.error_code));
+        check_unchanged(before, after, "refused", &out.error_code, st, &cx);
+    }
+    check_identity(after, st, &cx);
+    j.history.push(json!({"cmd": stmt.cmd.describe(), "outcome": if out.committed() { "committed in the other space".to_string() } else { format!("refused:{}", out.error_code) }}));
+}
+
+async fn keys_case_async(case: u64, rng: &mut Rng, st: &mut Stats) -> Result<(), String> {
+    let fx = fixture(Arc::new(InMemory::new()), &format!("c17y_{case}"), true).await?;
+    let nexus = &fx.nexus;
+    let sys = nexus.system_session();
+    let (typ, other) = if case % 2 == 0 { ("Person", "Preference") } else { ("Preference", "Person") };
+    let transition = KEY_TRANSITIONS[(case / 2) as usize % KEY_TRANSITIONS.len()];
+    let t = format!("y{case}");
+    let key = format!("lk-{t}");
+    let mut g = Gen { uid: 0, tag: t.clone() };
+    let mut before = observe(nexus).await?;
+    let mut j = Judge::new(case, before.seq);
+    let mint = if rng.bool() {
+        ("create_concept", format!("CREATE CONCEPT ?h {{ TYPE {} NAME \"holder {t}\" SET FIELDS {{key: {}}} }}", jstr(typ), jstr(&key)))
+    } else {
+        ("upsert_miss", format!("UPSERT CONCEPT ?h {{ MATCH {{type: {}, key: {}}} SET FIELDS {{name: \"holder {t}\"}} }}", jstr(typ), jstr(&key)))
+    };
+    let tuple = if typ == "Person" { "ENSURE PROPOSITION ?p (?h, \"prefers\", ?w)" } else { "ENSURE PROPOSITION ?p (?w, \"prefers\", ?h)" };
+    let setup = [
+        mint,
+        ("create_concept", format!("CREATE CONCEPT ?s1 {{ TYPE {} NAME \"survivor one {t}\" SET FIELDS {{key: {}}} }}", jstr(typ), jstr(&format!("{key}-s1")))),
+        ("create_concept", format!("CREATE CONCEPT ?s2 {{ TYPE {} NAME \"survivor two {t}\" }}", jstr(typ))),
+        ("create_concept", format!("CREATE CONCEPT ?w {{ TYPE {} NAME \"partner {t}\" }}", jstr(other))),
+        ("ensure", tuple.to_string()),
+    ];
+    let s = plain_stmt(block_of(&setup), setup.iter().map(|c| c.0).collect(), vec![]);
+    let o = play(nexus, None, &mut j, st, &mut before, &s, false).await?;
+    let (Some(h), Some(s1), Some(s2), Some(w)) = (o.handle("h"), o.handle("s1"), o.handle("s2"), o.handle("w")) else {
+        st.count(&format!("keys_setup_not_committed:{}", o.error_code));
+        return Ok(());
+    };
+    let s = plain_stmt(format!("UPDATE {} SET ATTRIBUTES {{note: 1}}", jstr(&h)), vec!["update_concept"], vec![]);
+    play(nexus, None, &mut j, st, &mut before, &s, false).await?;
+    if rng.bool() {
+        // the same key under the other type is another identity (Spec 7.3): legal, measured
+        let s = plain_stmt(format!("CREATE CONCEPT ?ot {{ TYPE {} NAME \"same key, other type\" SET FIELDS {{key: {}}} }}", jstr(other), jstr(&key)), vec!["create_concept"], vec![]);
+        let o = play(nexus, None, &mut j, st, &mut before, &s, false).await?;
+        st.count(&format!("keys_same_key_under_another_type:{}", if o.committed() { "accepted" } else { o.error_code.as_str() }));
+    }
+
+    // --- the holder's lifecycle
+    st.count(&format!("keys_transition:{transition}"));
+    if transition != "none" {
+        for step in transition.split('+') {
+            let kml = match step {
+                "archive" => Some(("archive", format!("ARCHIVE {}", jstr(&h)))),
+                "tombstone" => Some(("tombstone", format!("TOMBSTONE {}", jstr(&h)))),
+                "merge" => Some(("merge", format!("MERGE CONCEPT {} INTO {}", jstr(&h), jstr(&s1)))),
+                "merge_survivor" => Some(("merge", format!("MERGE CONCEPT {} INTO {}", jstr(&s1), jstr(&s2)))),
+                "purge" => Some(("purge_keep_stub", format!("PURGE {} REFERENCE POLICY \"tombstone_reference\" CONFIRM \"PURGE\"", jstr(&h)))),
+                _ => None,
+            };
+            match kml {
+                Some((k, text)) => {
+                    let s = plain_stmt(text, vec![k], vec![]);
+                    let o = play(nexus, None, &mut j, st, &mut before, &s, false).await?;
+                    if !o.committed() {
+                        st.count(&format!("keys_transition_step_not_committed:{step}:{}", o.error_code));
+                    }
+                }
+                None => {
+                    let id: anda_cognitive_nexus::id::ElementId = h.parse().map_err(|e| format!("element id {h}: {e:?}"))?;
+                    let r = if step == "quarantine" { sys.quarantine(DEFAULT_SPACE, id, "under review").await } else { sys.release_quarantine(DEFAULT_SPACE, id).await };
+                    if let Err(e) = r {
+                        st.count(&format!("keys_host_step_refused:{step}:{}", e.code));
+                    } else {
+                        st.count(&format!("keys_host_step:{step}"));
+                    }
+                    before = observe(nexus).await?;
+                    j.max_seq = j.max_seq.max(before.seq);
+                    j.history.push(json!({"host_call": step, "element": h}));
+                }
+            }
+        }
+    }
+    let hs = holders_of(&before.scan, DEFAULT_SPACE, typ, &key);
+    let hstate = hs.first().map(|x| x.1.clone()).unwrap_or_else(|| "no_holder".to_string());
+    st.count(&format!("keys_holder_state_when_readdressed:{hstate}"));
+
+    // --- the key is addressed again, in every form
+    let mut forms: Vec<&'static str> = KEY_FORMS.to_vec();
+    rng.shuffle(&mut forms);
+    for form in forms {
+        let u = g.next();
+        let held = holders_of(&before.scan, DEFAULT_SPACE, typ, &key);
+        let held_state = held.first().map(|x| x.1.clone()).unwrap_or_else(|| "no_holder".to_string());
+        let upsert = |h: &str, typ: Option<&str>, tail: &str| {
+            let m = match typ {
+                Some(t) => format!("type: {}, key: {}", jstr(t), jstr(&key)),
+                None => format!("key: {}", jstr(&key)),
+            };
+            format!("UPSERT CONCEPT ?{h} {{ MATCH {{{m}}}{tail} }}")
+        };
+        let create = format!("CREATE CONCEPT ?n{u} {{ TYPE {} NAME \"second {t} {u}\" SET FIELDS {{key: {}}} }}", jstr(typ), jstr(&key));
+        let note = format!(" SET ATTRIBUTES {{note: {}}}", 100 + u);
+        let mut stmt = match form {
+            "upsert_typed" | "upsert_other_space" | "dry_upsert" => plain_stmt(upsert(&format!("a{u}"), Some(typ), &note), vec!["upsert"], vec![]),
+            "upsert_with_tuple_clauses" => {
+                let a = format!("?a{u}");
+                let (s, o, by) = if typ == "Person" { (a.clone(), ":w".to_string(), a.clone()) } else { (":w".to_string(), a.clone(), ":w".to_string()) };
+                let mut cl = vec![("upsert", upsert(&format!("a{u}"), Some(typ), &note)), ("ensure", format!("ENSURE PROPOSITION ?q{u} ({s}, \"prefers\", {o})"))];
+                if rng.bool() {
+                    cl.push(("assert_sugar", format!("ASSERT ?x{u} ({s}, \"prefers\", {o}) {{ by: {by}, mode: \"stated\", confidence: 0.6 }}")));
+                }
+                // UPSERT and ENSURE are planned in one pass, in text order, and an UPSERT binds its
+                // handle late (clauses.rs plan_pass): a tuple clause in front of the UPSERT it names is
+                // refused; kept as one shape in four for the all-or-nothing oracle
+                if rng.chance(1, 4) {
+                    rng.shuffle(&mut cl);
+                }
+                plain_stmt(block_of(&cl), cl.iter().map(|c| c.0).collect(), vec![("w", w.clone())])
+            }
+            "create_same_key" | "create_other_space" | "preview_create" => plain_stmt(create.clone(), vec!["create_concept"], vec![]),
+            "create_and_upsert_in_one_block" => {
+                let mut cl = vec![("create_concept", create.clone()), ("upsert", upsert(&format!("a{u}"), Some(typ), &note))];
+                rng.shuffle(&mut cl);
+                plain_stmt(block_of(&cl), cl.iter().map(|c| c.0).collect(), vec![])
+            }
+            "upsert_untyped" => plain_stmt(upsert(&format!("a{u}"), None, &note), vec!["upsert"], vec![]),
+            "upsert_create_only" => plain_stmt(upsert(&format!("a{u}"), Some(typ), &format!(" EXPECT VERSION 0 SET FIELDS {{name: \"fresh {t} {u}\"}}")), vec!["upsert"], vec![]),
+            "upsert_other_type" => plain_stmt(upsert(&format!("a{u}"), Some(other), &format!(" SET FIELDS {{name: \"other type {t} {u}\"}}")), vec!["upsert"], vec![]),
+            _ => {
+                let cl = vec![("upsert", upsert(&format!("a{u}"), Some(typ), &note)), ("upsert", upsert(&format!("b{u}"), Some(typ), &format!(" SET ATTRIBUTES {{tag: \"t{u}\"}}")))];
+                plain_stmt(block_of(&cl), cl.iter().map(|c| c.0).collect(), vec![])
+            }
+        };
+        match form {
+            "dry_upsert" => {
+                stmt.dry = "option";
+                stmt.cmd.dry_run = true;
+            }
+            "preview_create" => {
+                stmt.dry = "preview";
+                let inner = stmt.cmd.text.clone();
+                stmt.cmd = Cmd::new("PREVIEW KML :kml").param("kml", json!(inner));
+            }
+            _ => {}
+        }
+        let foreign = matches!(form, "upsert_other_space" | "create_other_space");
+        let out = if foreign {
+            stmt.cmd.space = Some(OTHER_SPACE.to_string());
+            let out = exec(&Via::System(nexus), &stmt.cmd).await?;
+            let after = observe(nexus).await?;
+            judge_foreign(st, &mut j, &before, &after, &stmt, &out);
+            before = after;
+            out
+        } else {
+            play(nexus, None, &mut j, st, &mut before, &stmt, false).await?
+        };
+        let outcome = if stmt.dry != "none" {
+            "dry".to_string()
+        } else if out.committed() {
+            out.receipt_status.clone()
+        } else {
+            format!("refused:{}", out.error_code)
+        };
+        st.count(&format!("keys_form:{form}:{outcome}"));
+        st.set("keys_transition_x_form", vcore::fnv_str(&format!("{transition}|{form}")));
+        st.set("keys_holder_state_x_form_x_outcome", vcore::fnv_str(&format!("{held_state}|{form}|{outcome}")));
+        if !foreign && stmt.dry == "none" && !held.is_empty() {
+            if form.starts_with("create") {
+                // a second claimant of a held key: the commit must refuse it (or the scan below finds two)
+                st.count(&format!("keys_create_on_a_key_whose_holder_is:{held_state}"));
+                st.count(&format!("keys_create_on_a_key_whose_holder_is:{held_state}:{}", if out.committed() { "accepted" } else { "refused" }));
+            }
+            st.count("keys_statements_addressing_a_held_key");
+            if held_state != "active" {
+                st.count("keys_statements_addressing_a_key_whose_holder_left_ordinary_recall");
+            }
+        }
+        if form == "two_upserts_in_one_block" && out.committed() {
+            st.count("oracle_two_upserts_of_one_key_bind_one_element");
+            if out.handle(&format!("a{u}")) != out.handle(&format!("b{u}")) {
+                let (hist, o2) = (j.history.clone(), out.clone());
+                report_once(st, "C17/identity/two_upserts_of_one_key_in_one_block_bound_two_elements", || {
+                    json!({"key": key, "type": typ, "handles": o2.result["handles"], "case": case, "history": hist})
+                });
+            }
+        }
+        // what queries say: over every state a Concept can be found in, one (type, key) names at most
+        // one Concept of the Space
+        let mut found: BTreeSet<String> = BTreeSet::new();
+        for state in ["active", "archived", "tombstoned", "merged", "quarantined", "purged"] {
+            let q = format!("FIND(?c.id) WHERE {{ ?c CONCEPT {{type: {}, key: {}, state: {}}} }}", jstr(typ), jstr(&key), jstr(state));
+            match read(nexus, &q).await {
+                Ok(v) => found.extend(v.as_array().map(|a| a.iter().filter_map(|x| x.as_str().map(|s| format!("{s} ({state})"))).collect::<Vec<_>>()).unwrap_or_default()),
+                Err(e) if e.starts_with("HARNESS") => return Err(format!("{e} in {q}")),
+                Err(_) => st.count("keys_holder_query_refused(measured)"),
+            }
+        }
+        st.count("oracle_queries_find_at_most_one_holder_of_a_key");
+        if found.len() > 1 {
+            let hist = j.history.clone();
+            report_once(st, "C17/identity/queries_find_two_concepts_under_one_key", || {
+                json!({"what": "queries naming each engine state find more than one Concept of the type under one logical key", "type": typ, "key": key, "found": found, "case": case, "history": hist})
+            });
+        }
+    }
+    st.distinct(vcore::hash_debug(&j.history));
+    st.sample(|| json!({"monitor": "keys", "case": case, "transition": transition, "statements": j.history.iter().rev().take(4).collect::<Vec<_>>()}));
     Ok(())
 }
 
@@ -1169,7 +2030,8 @@ fn main() {
         "exploration",
         "seeded sequences of generated KML statements (multi-clause MUTATE blocks with forward \
          references, UPSERT/ENSURE hits and misses, one tuple named by two clauses, guards, 13 injected failure \
-         classes at first/middle/last position, dry runs, retries) against the bundled cognitive-memory \
+         classes at first/middle/last position, dry runs, retries; statements holding a PURGE that are refused in 18 ways; a logical key \
+         addressed again after 13 lifecycle histories of its holder) against the bundled cognitive-memory \
          profile; a sequence is non-trivial when it has >= 3 commits and >= 3 refusals with >= 2 \
          error codes (distinct by statement texts)",
     );
@@ -1177,6 +2039,9 @@ fn main() {
     run.assume("answers of queries without ORDER BY are compared as multisets of rows");
     run.assume("masked as legitimately tied to the Space counter: spaces.seq, DESCRIBE SPACE.seq, (DESCRIBE) SNAPSHOT snapshot_seq/snapshot_token");
     run.assume("SEARCH is not part of the battery (scores depend on index statistics, documented as grounding only)");
+    run.assume("a logical key is held by a Concept in every engine state that keeps the row's `key` column: active, archived, tombstoned, merged, quarantined (clauses.rs remove / merge_concept, governance/element.rs: nothing is erased or copied); a purged Concept is an identity stub without a key (governance/purge.rs stub) and holds none. Whether the key of a purged holder may be claimed again is measured, not asserted");
+    run.assume("a committed PURGE removes the recorded versions of the elements its receipt names with op `purge` (documented); whether it removes all of them is C18's subject and only counted here");
+    run.assume("hist / keys: the same key under another Concept type, a tuple clause placed in front of the UPSERT whose handle it names (refused: handles of UPSERT are bound in text order), a bare-key UPSERT that finds holders of two types (refused) are documented behaviour and counted");
     run.assume("crash model: each object-store mutation is atomic, the sequence is interruptible anywhere; partial commits at a crash are measured, not asserted (tx.rs documents no write-ahead log)");
     let t = run.tier;
     if run.wants("seq") {
@@ -1184,6 +2049,12 @@ fn main() {
     }
     if run.wants("spaces") {
         run.parallel("spaces", t.pick(16, 300), 0.2, |c, rng, st| spaces_case(c, rng, st, 24));
+    }
+    if run.wants("hist") {
+        run.parallel("hist", t.pick(36, 150), t.pick(0.3, 0.15), |c, rng, st| hist_case(c, rng, st, t.pick(3, 4)));
+    }
+    if run.wants("keys") {
+        run.parallel("keys", t.pick(52, 260), t.pick(0.3, 0.15), |c, rng, st| keys_case(c, rng, st));
     }
     if run.wants("vis") {
         // every second case has no PREVIEW among the writer's statements: pending rows seen by a
@@ -1231,6 +2102,34 @@ fn main() {
     run.floor("vis_meta_reads_export", 100);
     run.floor("scripted_tuple_clause_through_a_two_hop_merge_chain", 20);
     run.floor("vis_meta_reads_primer", 100);
+    // hist: every way of not committing met a PURGE that had passed planning
+    for k in HIST_REFUSALS {
+        run.floor(&format!("hist_refusal_with_a_viable_purge:{k}"), 2);
+    }
+    for s in PURGE_SHAPES {
+        run.floor(&format!("hist_viable_purge_shape:{s}"), 3);
+    }
+    run.floor("hist_commit_time_refusals_with_a_viable_purge", 8);
+    run.floor("oracle_history_in_depth_unchanged", 35);
+    run.floor("history_reads_compared", 3000);
+    run.floor("elements_purged_by_committed_statements", 60);
+    run.floor_set("hist_purge_shape_x_refusal", 40);
+    // keys: every transition, every state that keeps the key, every form of addressing it again
+    for tr in KEY_TRANSITIONS {
+        run.floor(&format!("keys_transition:{tr}"), 1);
+    }
+    for s in ["active", "archived", "tombstoned", "merged", "quarantined"] {
+        run.floor(&format!("upsert_on_a_key_whose_holder_is:{s}"), 8);
+        run.floor(&format!("keys_create_on_a_key_whose_holder_is:{s}"), 5);
+    }
+    run.floor("keys_holder_state_when_readdressed:no_holder", 1);
+    run.floor("keys_host_step:quarantine", 4);
+    run.floor("keys_host_step:release", 2);
+    run.floor_set("keys_transition_x_form", 100);
+    run.floor("oracle_queries_find_at_most_one_holder_of_a_key", 200);
+    run.floor("oracle_two_upserts_of_one_key_bind_one_element", 15);
+    run.floor("oracle_upsert_on_a_held_key_resolves_to_the_holder", 100);
+    run.floor("stmt_committed_in_the_other_space", 20);
     run.floor("crash_prefixes", 100);
     run.floor("crash_reopen_ok", 100);
     run.finish();
